@@ -1519,6 +1519,8 @@ def run(ctx, res):
                 for f in sorted(set().union(*[template_features(byname[k], t) for k, t in rules.items()])) if rules else []:
                     res.count("expand:" + f)
                 res.count("expand:outside-domain" if out.get("outside") else "expand:inside-domain")
+            if tr == "fuse":
+                res.count("fuse:callback:" + out["params"]["ffun"] + "/" + out["params"]["mode"])
             res.count("flavour:" + flavour)
             if nontrivial(spec):
                 res.nontrivial_keys.add(json.dumps(case, sort_keys=True))
